@@ -32,6 +32,12 @@ def make_obs(ctx):
                       bounds=dict(b, earlier='day of month <= 28')))
         obs.append(Ob('diff-ywd:%s' % tag, H, 'h_diff_ywd', d, units=UNITS, unwind=6, group='diff-ywd', timeout=600, kf=['ywd_diff_week53'],
                       bounds=b))
+    # date-times in seconds: the difference of any two instants of the range is the difference of their
+    # Unix seconds (harness shared with C11), which is what the second-wise adder of C11 inverts
+    from .C11 import UNITS as TUNITS
+    obs.append(Ob('dtdiff-seconds:any-pair', 'C11_time.c', 'h_dtdiff', dict(KMAX=911280), units=TUNITS, group='dtdiff-seconds',
+                  timeout=600, remove_bodies=core.prune_cals(['daisy']),
+                  bounds={'first': 'every second of every day 1601..4095 (day-number held)', 'second': 'any other second of the range'}))
     return obs
 
 
@@ -42,5 +48,5 @@ def run(tier, seed):
                     'dt_ddiff, re-applied largest unit first with the real adders, lands on the later date; swapped '
                     'operands give the same magnitude with the sign flipped'),
         assumptions=['reference h/ref.h', 'month/year formats: earlier date has day of month <= 28 (as the property states)',
-                     'business days: C07; seconds and date-times: C11; ymcw month differences not covered'],
+                     'business days: C07; date-times: the seconds difference of any two instants is checked here (harness of C11), the second-wise adder in C11; ymcw month differences not covered'],
         stubs=[])
